@@ -349,7 +349,12 @@ def sampler_slots(mod, session):
     return s
 
 
-def module_slots(mod, session=None, in_project=True):
+def module_slots(mod, session=None, in_project=True, layout=None):
+    """layout 1 = the original flat list (kept so that stored replay files keep selecting
+    the slots they were recorded with); layout 2 repeats the type-specific payload slots
+    so that they are chosen about as often as all the generic slots together."""
+    if layout is None:
+        layout = getattr(session, "layout", 1) if session is not None else 1
     s = []
     is_output = type(mod).__name__ == "Output"
     if not is_output:
@@ -387,7 +392,11 @@ def module_slots(mod, session=None, in_project=True):
     att = [n for n, c in mod.controllers.items() if c.attached(mod)]
     if att:
         s.append(("cmid", lambda v: set_cmid(mod, att[v % len(att)], v >> 8)))
-    s.extend(payload_slots(mod, session))
+    pay = payload_slots(mod, session)
+    s.extend(pay)
+    if layout >= 2 and pay:
+        reps = max(1, len(s) // len(pay)) - 1
+        s.extend(pay * min(reps, 12))
     return s
 
 
@@ -498,9 +507,10 @@ def build_link_request(project, op, foreign=None):
 class Session:
     """One actor's editor session over one project."""
 
-    def __init__(self, project=None, depth=0):
+    def __init__(self, project=None, depth=0, layout=1):
         self.project = project if project is not None else Project()
         self.depth = depth
+        self.layout = layout
         self.errors = {}
 
     # live sets
@@ -608,7 +618,7 @@ class Session:
             if not ms or self.depth >= 2:
                 return "skip"
             mm = ms[op["m"] % len(ms)]
-            sub = Session(mm.project, self.depth + 1)
+            sub = Session(mm.project, self.depth + 1, self.layout)
             out = sub.apply(op["op"])
             for kk, vv in sub.errors.items():
                 self.errors[kk] = self.errors.get(kk, 0) + vv
